@@ -156,6 +156,10 @@ def nd(ctx, lib, bin_, reach):
             d = local.Defs(b)
             r = d.local(0)
             bad = [x for x in local.walk(r) if x[0] in ("static", "param", "upvar", "unknown", "multi")]
+            if b.kind == "closure":
+                # a closure inside an initialiser (`TABLE.iter().map(|&(lo, _)| ..)`): its parameters are the items of what the initialiser iterates, not an outside
+                # input; only captured variables could carry one
+                bad = [x for x in bad if x[0] != "param"]
             if bad:
                 ctx.violation("ND-3", (b.path, "initialiser input"), "lazy static initialiser reads non-constant input: %s" % local.show(r), b.loc())
             else:
